@@ -329,9 +329,35 @@ def write_replay(prop, seed, n, body) -> Path:
 
 def evaluate_case(mod, spec):
     """Run implementation observation + oracle for one spec."""
-    obs = mod.run_impl(spec)
-    fails = mod.oracle(spec)
+    # An exception that escapes a property's own adapter or oracle comes, on a tree whose checks ran clean before, from
+    # the implementation behaving in a way the adapter did not foresee (a query raising where it never raised): it is an
+    # observation and an oracle failure with the case as its replay — not a reason to stop the whole check (a seeded
+    # change making `len(hugr)` negative ended the C04 check with an infrastructure error instead of a violation).
+    try:
+        obs = mod.run_impl(spec)
+    except Exception as e:  # noqa: BLE001
+        obs = f"!adapter-raised:{type(e).__name__}"
+    try:
+        fails = mod.oracle(spec)
+    except Exception as e:  # noqa: BLE001
+        fails = [Failure(f"{getattr(mod, 'PROP', '?')} oracle", "evaluating-the-case-raises", repr(e)[:300])]
     return obs, fails
+
+
+def safe_impl(mod, spec) -> str:
+    """`mod.run_impl(spec)`; an exception escaping the adapter is an observation (see evaluate_case)"""
+    try:
+        return mod.run_impl(spec)
+    except Exception as e:  # noqa: BLE001
+        return f"!adapter-raised:{type(e).__name__}"
+
+
+def safe_oracle(mod, spec):
+    """`mod.oracle(spec)`; an exception escaping it is a failure of the case (see evaluate_case)"""
+    try:
+        return list(mod.oracle(spec))
+    except Exception as e:  # noqa: BLE001
+        return [Failure(f"{getattr(mod, 'PROP', '?')} oracle", "evaluating-the-case-raises", repr(e)[:300])]
 
 
 _WORKER_MOD = None
@@ -510,7 +536,7 @@ def run_check(prop: str, tier: str, seed: int, replay: str | None) -> int:
             if shrink:
                 try:
                     spec = shrink(
-                        spec, lambda s: any(x.key() == f0.key() for x in mod.oracle(s))
+                        spec, lambda s: any(x.key() == f0.key() for x in safe_oracle(mod, s))
                     )
                 except Exception as e:  # noqa: BLE001
                     notes.append(f"shrink failed: {e!r}")
@@ -518,7 +544,7 @@ def run_check(prop: str, tier: str, seed: int, replay: str | None) -> int:
                 continue
             reported_keys.add(f0.key())
             if spec is not specs[i]:
-                refails = [x for x in mod.oracle(spec)]
+                refails = [x for x in safe_oracle(mod, spec)]
             else:
                 refails = [u[0] for u in unknown]
             nrep += 1
@@ -528,7 +554,7 @@ def run_check(prop: str, tier: str, seed: int, replay: str | None) -> int:
                     "kind": "impl-violates-property",
                     "tier": tier, "seed": seed, "spec": spec,
                     "failures": [dataclasses.asdict(x) for x in refails],
-                    "impl_observation": mod.run_impl(spec)[:4000],
+                    "impl_observation": safe_impl(mod, spec)[:4000],
                 },
             )
             violations.append(f"VIOLATION property={prop} replay={p.relative_to(VERIF)}")
@@ -544,7 +570,7 @@ def run_check(prop: str, tier: str, seed: int, replay: str | None) -> int:
         if not replay:
             srng = random.Random(seed ^ 0x5EED)
             for spec in mod.cases(srng, "search"):
-                fs = mod.oracle(spec)
+                fs = safe_oracle(mod, spec)
                 _, unknown = attribute(fs)
                 if unknown:
                     found = (spec, unknown)
@@ -553,7 +579,7 @@ def run_check(prop: str, tier: str, seed: int, replay: str | None) -> int:
             spec, unknown = found
             f0 = unknown[0][0]
             if shrink:
-                spec = shrink(spec, lambda s: any(x.key() == f0.key() for x in mod.oracle(s)))
+                spec = shrink(spec, lambda s: any(x.key() == f0.key() for x in safe_oracle(mod, s)))
             nrep += 1
             p = write_replay(
                 prop, seed, nrep,
@@ -571,7 +597,7 @@ def run_check(prop: str, tier: str, seed: int, replay: str | None) -> int:
                     if pl is None:
                         return False
                     mo = run_driver([f"0\t{pl[0]}\t{pl[1]}"], prop).get("0", "")
-                    return not mo.startswith("!") and not compare(s, mod.run_impl(s), mo)
+                    return not mo.startswith("!") and not compare(s, safe_impl(mod, s), mo)
                 try:
                     spec = shrink(spec, still)
                 except Exception as e:  # noqa: BLE001
@@ -583,7 +609,7 @@ def run_check(prop: str, tier: str, seed: int, replay: str | None) -> int:
                 prop, seed, nrep,
                 {"kind": "model-impl-divergence", "tier": tier, "seed": seed, "spec": spec,
                  "stream": pl[0], "payload": pl[1],
-                 "model_observation": mo[:4000], "impl_observation": mod.run_impl(spec)[:4000],
+                 "model_observation": mo[:4000], "impl_observation": safe_impl(mod, spec)[:4000],
                  "divergent_cases": len(divergences),
                  "note": "the correspondence between the Lean model and the implementation no longer "
                          "checks; the property theorems are about the model only"},
@@ -598,7 +624,7 @@ def run_check(prop: str, tier: str, seed: int, replay: str | None) -> int:
         if not replay:
             srng = random.Random(seed ^ 0x0B11)
             for spec in mod.cases(srng, "search"):
-                fs = mod.oracle(spec)
+                fs = safe_oracle(mod, spec)
                 _, unknown = attribute(fs)
                 if unknown:
                     found = (spec, unknown)
